@@ -1,4 +1,5 @@
 import GnarkVerif.Gen.Imp.MulWAll
+import GnarkVerif.Gen.Imp.TEMulAll
 import GnarkVerif.Proofs.ScalarMul
 /-
 Helper lemmas for C03_loop_gen: the translated scalar-multiplication loops (Gen/Imp/MulW_*.lean) against the hand model
@@ -193,5 +194,81 @@ theorem mulWindowed_eq_model (hdbl : ∀ x, dbl x = add x x) (p q : G) (s : Int)
     rw [UInt8.toNat_ofNat', Nat.mod_eq_of_lt this]
 
 end MulW
+
+/-! ### twisted Edwards `scalarMulWindowed` -/
+
+section TE
+open GV.Gen.Imp.TEMul_bn254_Proj
+variable {G : Type} (add : G → G → G) (dbl : G → G) (neg : G → G) (zero uninit : G)
+
+/-- the 64 bits of one word, most significant first: the translated inner loop = `teStep` folded over `k, k+1, …, 63` -/
+theorem te_loop2_gen (hdbl : ∀ x, dbl x = add x x) (p : G) (w : Nat) : ∀ (n k : Nat), k + n = 64 → ∀ res : G,
+    (scalarMulWindowed.loop2 add dbl neg zero uninit p 64 w n res (k : Int)).1 =
+    (List.range' k n).foldl (teStep ⟨add, neg, zero⟩ p w) res := by
+  intro n
+  induction n with
+  | zero => intro k _ res; rw [scalarMulWindowed.loop2]; rfl
+  | succ n ih =>
+    intro k hkn res
+    have hc : decide ((k : Int) < 64) = true := by simp; omega
+    have hs : ((64 : Int) - 1 - (k : Int)).toNat = 63 - k := by omega
+    have hi : (k : Int) + 1 = ((k + 1 : Nat) : Int) := by push_cast; rfl
+    rw [scalarMulWindowed.loop2]
+    simp only [hc, if_true, shr64, hs, hi]
+    rw [ih (k + 1) (by omega), List.range'_succ, List.foldl_cons]
+    congr 1
+    simp only [teStep, GOps.dbl, hdbl]
+    by_cases hb : (w >>> (63 - k)) &&& 1 = 1
+    · simp [hb]
+    · simp [hb]
+
+theorem te_loop2_eq (hdbl : ∀ x, dbl x = add x x) (p : G) (w : Nat) (res : G) :
+    (scalarMulWindowed.loop2 add dbl neg zero uninit p 64 w ((64 : Int) - 0).toNat res 0).1 = teWord ⟨add, neg, zero⟩ p res w := by
+  have e : ((64 : Int) - 0).toNat = 64 := rfl
+  rw [e]
+  have := te_loop2_gen add dbl neg zero uninit hdbl p w 64 0 rfl res
+  simpa [teWord, List.range_eq_range'] using this
+
+/-- the word loop, from the top word down: words `n-1, …, 0` of the little-endian list -/
+theorem te_loop1_gen (hdbl : ∀ x, dbl x = add x x) (p : G) (ws : List Nat) : ∀ (n : Nat), n ≤ ws.length → ∀ res : G,
+    (scalarMulWindowed.loop1 add dbl neg zero uninit p 64 ws n res ((n : Int) - 1)).1 =
+    ((ws.take n).reverse).foldl (teWord ⟨add, neg, zero⟩ p) res := by
+  intro n
+  induction n with
+  | zero => intro _ res; rw [scalarMulWindowed.loop1]; rfl
+  | succ n ih =>
+    intro hn res
+    have hc : decide ((n : Int) ≥ 0) = true := by simp
+    have hi : ((n + 1 : Nat) : Int) - 1 = (n : Int) := by omega
+    have hx : index ws (n : Int) = ws[n] := by
+      simp [index, List.getD_eq_getElem?_getD, List.getElem?_eq_getElem (show n < ws.length by omega)]
+    rw [scalarMulWindowed.loop1]
+    simp only [hi, hc, if_true, hx]
+    rw [te_loop2_eq add dbl neg zero uninit hdbl p ws[n] res]
+    rw [List.take_succ, List.getElem?_eq_getElem (show n < ws.length by omega)]
+    simp only [Option.toList_some, List.reverse_append, List.reverse_cons, List.reverse_nil, List.nil_append, List.cons_append,
+      List.foldl_cons]
+    exact ih (by omega) _
+
+/-- REFINEMENT: the translated twisted-Edwards `scalarMulWindowed` equals `teScalarMul` of the hand model -/
+theorem te_eq_model (hdbl : ∀ x, dbl x = add x x) (p p1 : G) (s : Int) :
+    TEMul_bn254_Proj.scalarMulWindowed add dbl neg zero uninit p p1 s = teScalarMul ⟨add, neg, zero⟩ s p1 := by
+  unfold TEMul_bn254_Proj.scalarMulWindowed teScalarMul
+  simp only [bigSign_neg]
+  have key : ∀ (q : G) (t : Int), t.natAbs = s.natAbs →
+      (scalarMulWindowed.loop1 add dbl neg zero uninit q 64 (bigWords t) (len (bigWords t) - 1 + 1 - 0).toNat zero
+        (len (bigWords t) - 1)).1 = (digitsBE (2 ^ 64) s.natAbs).foldl (teWord ⟨add, neg, zero⟩ q) zero := by
+    intro q t ht
+    have hl : (len (bigWords t) - 1 + 1 - 0).toNat = (bigWords t).length := by simp [len]
+    have hl2 : len (bigWords t) - 1 = (((bigWords t).length : Nat) : Int) - 1 := by simp [len]
+    rw [hl, hl2, te_loop1_gen add dbl neg zero uninit hdbl q (bigWords t) _ (le_refl _), List.take_length, bigWords,
+      List.reverse_reverse, natDigitsBE_eq, ht]
+  by_cases hs : s < 0
+  · simp only [hs, decide_true, if_true, signPt]
+    exact key (neg p1) (-s) (by simp)
+  · simp only [hs, decide_false, if_false, signPt, Bool.false_eq_true]
+    exact key p1 s rfl
+
+end TE
 
 end GV.ScalarMulGen
